@@ -48,7 +48,7 @@ CHECKS = {
    "Trusts SHA-256/Ed25519 and the reference implementations in sim/ref. A client that consumed a non-benign fault may fail later lookups (never return or store unauthenticated data); disk faults relax every client of the machine. Sampled, not exhaustive.", "4 (C01)"),
  "C13": ("sumdbsim", "deterministic simulation with fault injection: two equivocating log universes signed by the real key, clients sharing a config register, view switches, cross-log cache/config tampering, crash-restart, tape-driven scheduler; lineage and RFC 6962 consistency oracles",
    "Seeded search over pairs of logs (any common prefix, either side smaller/equal/larger), tile heights, interleavings of clients sharing one configuration, restarts at arbitrary hook points, answers and cache entries from the other log, config rollback/replacement; split-view runs show the goroutines of one client process different logs at the same time; schedules drawn from random-switching and priority (PCT) policies. Every WriteConfig is checked (signed, never smaller, contains the previous head by the reference), each client process may only ever accept one lineage, and every SecurityError message must hold both signed heads and a consistency proof that verifies by the reference RFC 9162 algorithm.",
-   "Nothing is demanded about which lineage wins while both are consistent with what the client holds. Sampled schedules and forks, not exhaustive. One genuine defect (F1: a lookup succeeds under the rejected tree after the same client reported the fork and its callback returned) is recorded in known_findings.json and reported as KNOWN-FINDING, exit 0; any other violation is reported.", "4 (C13), 8"),
+   "Nothing is demanded about which lineage wins while both are consistent with what the client holds. Sampled schedules and forks, not exhaustive. Two genuine defects (F1, in two forms: a lookup succeeds under a tree that contradicts a stored head the process has read or reported; F4: after a failed write-back later lookups succeed under the head that was never stored) are recorded in known_findings.json and reported as KNOWN-FINDING, exit 0; any other violation is reported.", "4 (C13), 8"),
  "C10": ("sumdbsim", "deterministic simulation of the TileReader seam: seeded fault injection on served tiles + placed single-fault sweep, reference RFC 6962 oracle",
    "Seeded search over (tree size, tile height, growth steps, index sets, multi-read histories, 0-3 tile corruptions of 10 kinds) plus a systematic placement of every single corruption kind on each fetched tile for small trees; oracle is an independent RFC 6962 implementation. Evidence over the sampled space, not proof.",
    "Trusts SHA-256 and the reference Merkle code in sim/ref (cross-checked against a naive recursion). The TileReader is simulated; TileHashReader, HashFromTile, NewTiles, Path/ParseTilePath are the real code.", "4 (C10)"),
@@ -76,7 +76,7 @@ def main():
        {"name":"modsim","path":"/verif/sim (props/c08,c15,c16)","serves_properties":["C08","C15","C16"],"kind_free_text":"edit-session simulator: operation histories with persistence points against a set/map reference model"},
      ],
      "checks": [],
-     "notes": "All checks: `./check <ID> quick|thorough`, replay with `./check <ID> --replay <file>`. Exit 0 held / 1 violation / 2 build or harness trouble. Genuine defects: 19 repaired by fix: commits in /repo (D1-D19), 3 recorded as open known findings (F1: C13; F2: C12; F3: C15 and C08); see known_findings.json, findings/, seeded/ and DESIGN.md sections 8, 11, 12.",
+     "notes": "All checks: `./check <ID> quick|thorough`, replay with `./check <ID> --replay <file>`. Exit 0 held / 1 violation / 2 build or harness trouble. Genuine defects: 19 repaired by fix: commits in /repo (D1-D19), 4 recorded as open known findings (F1 and F4: C13; F2: C12; F3: C15 and C08); see known_findings.json, findings/, seeded/ and DESIGN.md sections 8, 11, 12.",
      "not_applicable": [{"property_id":k,"reason":v} for k,v in sorted(NA.items())],
     }
     for pid,(eng,tech,text,note,ref) in sorted(CHECKS.items()):
